@@ -13,7 +13,7 @@ FILES = {
     "fastq": dict(fmt="fastq", records=[[1, 2], [2, 1], [1, 3]]),
     "fasta2": dict(fmt="fasta2", records=[[1, 2], [2, 1], [1, 3]]),
 }
-INTCOL = {"bed3": ["start", "stop"], "bed6": ["start", "stop"], "fastq": [], "fasta2": [], "sam": ["position", "mapq"]}
+INTCOL = {"bed3": ["start", "stop"], "bed6": ["start", "stop"], "fastq": [], "fasta2": [], "sam": ["position", "mapq"], "bed12": ["start", "stop"]}
 
 # operation sequences; observations are taken where marked
 PROGRAMS = {
@@ -191,16 +191,33 @@ class LockStep(Harness):
             values = z_and(conj)
         return [("values", values), ("strand_shape", shape(out["lazy"]) == shape(out["eager"]))]
 
-    def oracle(self, skel, cx, cout):
+    @staticmethod
+    def _flat_strand(obs):
+        """observations with the strand column flattened (its shape is the separate obligation strand_shape)"""
+        fl = lambda d: {f: ([u for w in v for u in (w if isinstance(w, list) else [w])] if f == "strand" else v) for f, v in d.items()}
+        return [tuple(fl(e) if isinstance(e, dict) else e for e in o) if isinstance(o, (list, tuple)) else o for o in obs]
+
+    def _describe(self, skel):
+        return f"program {skel['prog']} = {PROGRAMS[skel['prog']]}"
+
+    def oracle_ob(self, obligation, skel, cx, cout):
         if isinstance(cout, Exc):
             return f"raised {cout}"
-        if cout["lazy"] != cout["eager"]:
+        lazy, eager = cout["lazy"], cout["eager"]
+        if obligation == "values":
+            lazy, eager = self._flat_strand(lazy), self._flat_strand(eager)
+        elif obligation == "strand_shape" and self._flat_strand(lazy) != self._flat_strand(eager):
+            return None          # a difference in values is the other obligation's business
+        if lazy != eager:
             text = bytes(F.seq_content(skel, cx) if is_seq(skel) else F.content(skel, cx))
-            k = next((i for i, (a, b) in enumerate(zip(cout["lazy"], cout["eager"])) if a != b), min(len(cout["lazy"]), len(cout["eager"])))
-            la = cout["lazy"][k] if k < len(cout["lazy"]) else None
-            ea = cout["eager"][k] if k < len(cout["eager"]) else None
-            return (f"file {text!r}, program {skel['prog']} = {PROGRAMS[skel['prog']]}: observation {k} differs: lazy {la!r} vs eager {ea!r}")
+            k = next((i for i, (a, b) in enumerate(zip(lazy, eager)) if a != b), min(len(lazy), len(eager)))
+            la = lazy[k] if k < len(lazy) else None
+            ea = eager[k] if k < len(eager) else None
+            return f"file {text!r}, {self._describe(skel)}: observation {k} differs: lazy {la!r} vs eager {ea!r}"
         return None
+
+    def oracle(self, skel, cx, cout):
+        return self.oracle_ob("values", skel, cx, cout) or self.oracle_ob("strand_shape", skel, cx, cout)
 
 
 # ---------------------------------------------------------------------------------------------------------------------
@@ -217,6 +234,13 @@ SEQ_FILES = {
     # SAM without header lines (a header travels with lazily read tables only: see the sam_hdr skeletons and the known finding)
     "sam": dict(fmt="sam", rows=[[1, 1, 1, 2, 1, 2, 1, 1, 1, 2, 2], [2, 1, 1, 1, 1, 1, 1, 1, 1, 1, 1, 3], [1, 2, 1, 1, 1, 1, 1, 1, 1, 1, 1, 1, 2]]),
 }
+_L = lambda *w: dict(widths=list(w), trailing=False)
+BED12 = dict(fmt="bed12", rows=[[1, 1, 2, 1, 1, 1, 1, 2, 1, 1, 3, 3], [2, 1, 2, 1, 1, 1, 1, 2, 1, 1, 1, 1], [1, 2, 2, 1, 1, 1, 1, 2, 1, 1, 4, 3]],
+             lists={"0_10": _L(1, 1), "0_11": _L(1, 1), "1_10": _L(1), "1_11": _L(1), "2_10": _L(2, 1), "2_11": _L(1, 1)})
+OPS_BED12 = [("len",), ("get", 1), ("get", 10), ("get", 11), ("slice", 0), ("slice", 2), ("mask",), ("ilist",), ("swap",), ("concat",), ("replace", 0),
+             ("replace", 1), ("write",)]
+DIRECTED_BED12 = [[("get", 10), ("replace", 0), ("get", 10)], [("get", 10), ("replace", 0), ("write",)], [("get", 11), ("slice", 0), ("get", 11), ("write",)],
+                  [("slice", 0), ("get", 10), ("swap",), ("get", 10)], [("get", 10), ("get", 10), ("replace", 1), ("get", 11)]]
 SAM_HDR = dict(fmt="sam", rows=[[1, 1, 1, 2, 1, 2, 1, 1, 1, 2, 2], [2, 1, 1, 1, 1, 1, 1, 1, 1, 1, 1, 3]], header=["@HD\tVN:1.0"])
 
 
@@ -313,6 +337,10 @@ class OpSequences(LockStep):
                 out.append(dict(f, file=name, ops=[list(op) for op in prog]))
         for prog in ([], [("slice", 0)], [("concat",)]):
             out.append(dict(SAM_HDR, file="sam", ops=[list(op) for op in prog]))
+        # BED12: list-valued columns (read with their separator)
+        b12 = gen_programs(OPS_BED12, 3, 8 if tier == "quick" else 120, seed if tier == "thorough" else 0, 1 if tier == "quick" else 2)
+        for prog in b12 + [p for p in DIRECTED_BED12 if p not in b12]:
+            out.append(dict(BED12, file="bed12", ops=[list(op) for op in prog]))
         return out
 
     def _run(self, skel, x, ctx, lazy):
@@ -394,6 +422,12 @@ class OpSequences(LockStep):
                 for c, (nm, kind) in enumerate(F.FORMATS[skel["fmt"]]["cols"]):
                     if kind in ("int", "oint") and widths[c] > 1:
                         V.assume(V.vars[f"c{r}_{c}_0"].t != 48)
+                    if kind == "ilist":          # canonical list text: no leading zero in a multi-digit element
+                        k = 0
+                        for w in F.list_spec(skel, r, c)["widths"]:
+                            if w > 1:
+                                V.assume(V.vars[f"c{r}_{c}_{k}"].t != 48)
+                            k += w + 1
         # table sizes grow by concatenation: bound by n * 2^(#concat)
         ops = [tuple(o) for o in skel["ops"]]
         size = n * 2 ** sum(1 for o in ops if o[0] == "concat")
@@ -407,17 +441,8 @@ class OpSequences(LockStep):
             for j in range(size):
                 V.int(f"new{k}_{j}", 0, 12)
 
-    def oracle(self, skel, cx, cout):
-        if isinstance(cout, Exc):
-            return f"raised {cout}"
-        if cout["lazy"] != cout["eager"]:
-            text = bytes(F.seq_content(skel, cx) if is_seq(skel) else F.content(skel, cx))
-            k = next((i for i, (a, b) in enumerate(zip(cout["lazy"], cout["eager"])) if a != b), min(len(cout["lazy"]), len(cout["eager"])))
-            la = cout["lazy"][k] if k < len(cout["lazy"]) else None
-            ea = cout["eager"][k] if k < len(cout["eager"]) else None
-            return (f"file {text!r}, operations {skel['ops']} then observe, write (t, u start as the table read): observation {k} differs: "
-                    f"lazy {la!r} vs eager {ea!r}")
-        return None
+    def _describe(self, skel):
+        return f"operations {skel['ops']} then observe, write (t, u start as the table read)"
 
 
 HARNESSES = [LockStep(), OpSequences()]
